@@ -23,6 +23,7 @@ type vfTopPath struct {
 type vfC01Case struct {
 	Cfg   vfPairCfg   `json:"cfg"`
 	Paths []vfTopPath `json:"paths"`
+	Pre   int         `json:"pre,omitempty"` // with -y: what already sits at the destination under the same names (0 nothing, 1 longer copies, 2 prefixes, 3 other content, 4 identical)
 }
 
 func (p vfTopPath) base() string { return p.Tree.Files[0].Rel[0] }
@@ -99,6 +100,9 @@ func vfC01Run(cs vfC01Case, res *vfC01Res) string {
 			}
 		}
 	}
+	if cs.Pre > 0 && cs.Cfg.Overwrite {
+		vfC01PreExisting(cs, base, dest)
+	}
 	vfCurCase("TestVF_C01", cs)
 	r := vfNewPair(cs.Cfg)
 	r.run(paths, dest, 120*time.Second)
@@ -144,6 +148,36 @@ func vfC01Run(cs vfC01Case, res *vfC01Res) string {
 		return fmt.Sprintf("final message %q does not list exactly the written names %q", r.serverMsg, vfDedupe(want))
 	}
 	return ""
+}
+
+// vfC01PreExisting puts stale versions of the incoming regular files at the destination (overwrite mode only).
+func vfC01PreExisting(cs vfC01Case, base, dest string) {
+	for i, p := range cs.Paths {
+		parent := filepath.Join(base, "src", fmt.Sprintf("p%d", i))
+		for _, f := range p.Tree.Files {
+			if f.IsDir {
+				continue
+			}
+			src, err := os.ReadFile(filepath.Join(append([]string{parent}, f.Rel...)...))
+			if err != nil {
+				continue
+			}
+			var old []byte
+			switch cs.Pre {
+			case 1:
+				old = append(append([]byte(nil), src...), []byte("STALE TAIL OF A LONGER OLD VERSION")...)
+			case 2:
+				old = append([]byte(nil), src[:len(src)/2]...)
+			case 3:
+				old = vfContent(vfKindText, 99, int64(len(src))+7)
+			default:
+				old = src
+			}
+			dp := filepath.Join(append([]string{dest}, f.Rel...)...)
+			os.MkdirAll(filepath.Dir(dp), 0755)
+			os.WriteFile(dp, old, 0644)
+		}
+	}
 }
 
 func vfGenSeg(rt *rapid.T, label string, totalBytes int64) vfSeg {
@@ -224,6 +258,9 @@ func vfGenC01(rt *rapid.T) vfC01Case {
 	}
 	cs.Cfg = vfGenPairCfg(rt, total)
 	cs.Cfg.Directory = dirMode
+	if cs.Cfg.Overwrite && rapid.IntRange(0, 2).Draw(rt, "preexisting") == 0 {
+		cs.Pre = rapid.IntRange(1, 4).Draw(rt, "prekind")
+	}
 	// duplicate base names with -y are refused by design
 	if cs.Cfg.Overwrite {
 		seen := map[string]bool{}
@@ -298,6 +335,9 @@ func TestVF_C01(t *testing.T) {
 		}
 		if res.bytes > 200000 {
 			labels = append(labels, "payload>200k")
+		}
+		if cs.Pre > 0 {
+			labels = append(labels, fmt.Sprintf("overwrite_over_existing_%d", cs.Pre))
 		}
 		def := vfPairCfg{Timeout: 20, Protocol: 4}
 		nondefault := cs.Cfg != def
